@@ -25,6 +25,9 @@ from srctools.vmf import VMF, Output, UVAxis, Side, FixupValue, DispFlag, VisGro
 
 from mcv import core, bfs
 
+import logging as _logging
+_logging.getLogger('srctools.srctools.instancing').setLevel(_logging.ERROR); _logging.getLogger('srctools').setLevel(_logging.ERROR)      # 'Unknown keyvalue' warnings of the library are not findings
+
 PROPERTY = 'C17'
 LEVEL = 'model_checking'
 
@@ -131,7 +134,35 @@ def t_push(v: VMF) -> None:
     e.solids.append(v.make_prism(Vec(-8, -8, -8), Vec(8, 8, 8), mat='tools/toolstrigger').solid)
 
 
-TEMPLATE_FEATURES = [(f.__name__[2:], f) for f in [t_world_brush, t_disp, t_strata_points, t_brush_ent, t_point_ent, t_pitch_ent, t_relay,
+def t_brush_ent_hidden_solid(v: VMF) -> None:
+    """A visible brush entity that owns one visible and one hidden solid (Hammer's `hidden { solid }` inside the entity)."""
+    e = v.create_ent('func_brush', targetname='partly', origin='40 8 72')
+    e.solids.append(v.make_prism(Vec(32, 0, 64), Vec(48, 16, 80), mat='metal/door').solid)
+    hid = v.make_prism(Vec(32, 0, 80), Vec(48, 16, 96), mat='metal/door_hidden').solid
+    hid.hidden = True
+    e.solids.append(hid)
+
+
+PLAIN_KEYS = ('see_ticket', 'zz_note', 'qq_ref')
+
+
+def t_unknown_keys(v: VMF) -> None:
+    """Keys no entity definition knows, on several entities of one class, after the name: free-form text, copied as it is (also when
+    the text happens to be another entity's name)."""
+    for n in range(3):
+        v.create_ent('info_target', origin=f'{n} 0 0', targetname=f'uk{n}', see_ticket='see_ticket_42', zz_note='door', qq_ref=f'uk{n}')
+    v.create_ent('logic_relay', origin='0 0 0', targetname='uk_rl', see_ticket='see_ticket_42', zz_note='tgt')
+
+
+def t_name_clash(v: VMF) -> None:
+    """Template names that already start / end with the instance's own name and a hyphen: still distinct entities after fixing up."""
+    v.create_ent('info_target', origin='1 0 0', targetname='nc_door')
+    v.create_ent('info_target', origin='2 0 0', targetname='inst-nc_door', parentname='nc_door')
+    e = v.create_ent('info_target', origin='3 0 0', targetname='nc_door-inst', parentname='inst-nc_door')
+    e.add_out(Output('OnUser1', 'nc_door', 'Kill'), Output('OnUser2', 'inst-nc_door', 'Kill'), Output('OnUser3', 'nc_door-inst', 'Kill'))
+
+
+TEMPLATE_FEATURES = [(f.__name__[2:], f) for f in [t_brush_ent_hidden_solid, t_unknown_keys, t_name_clash, t_world_brush, t_disp, t_strata_points, t_brush_ent, t_point_ent, t_pitch_ent, t_relay,
                                                    t_vars, t_nested, t_hidden, t_overlay, t_visgroup, t_alias_classes, t_push]]
 TF = dict(TEMPLATE_FEATURES)
 
@@ -292,6 +323,7 @@ def snapshot_template(file: InstanceFile):
     brushes, ents = visible_template(file)
     return ([[side_obs(f) for f in s.sides] for s in brushes],
             [{'keys': dict(e.items()), 'solids': [[side_obs(f) for f in s.sides] for s in e.solids],
+              'solid_visible': [not (s.hidden or not s.vis_shown) for s in e.solids],
               'outputs': [(o.output, o.target, o.input, o.params, o.delay, o.times) for o in e.outputs],
               'fixup': {k: v for k, v in e.fixup.items()} if e._fixup is not None else {}} for e in ents])
 
@@ -317,6 +349,12 @@ def check_collapse(fails: list, tmpl, target: VMF, n_before, placement: str, sty
         for j, (ssol, sol) in enumerate(zip(src['solids'], e.solids)):
             for k, (ss, f) in enumerate(zip(ssol, sol.sides)):
                 check_side(fails, f'ent[{i}:{cls}].solid[{j}].side[{k}]', ss, side_obs(f), m, o, tol)
+        # "a copy of every VISIBLE brush": the visible solids of the entity, no more (a hidden solid is left out or stays hidden)
+        vis_src = [ssol for ssol, vis in zip(src['solids'], src['solid_visible']) if vis]
+        vis_got = [sol for sol in e.solids if not (sol.hidden or not sol.vis_shown)]
+        if len(vis_got) != len(vis_src):
+            fails.append(('count', f'ent[{i}:{cls}]: {len(vis_got)} visible solids after collapsing, the template entity has {len(vis_src)} visible '
+                                   f'(and {len(src["solids"]) - len(vis_src)} hidden)'))
         for key, val in src['keys'].items():
             kf = key.casefold()
             sub = ref_substitute(val, tab)
@@ -341,6 +379,9 @@ def check_collapse(fails: list, tmpl, target: VMF, n_before, placement: str, sty
                 want = ref_name(sub, style, 'inst')
                 if got != want:
                     fails.append(('name', f'ent[{i}:{cls}].{key} = {got!r}, expected {want!r} (style {style.name})'))
+            elif kf in PLAIN_KEYS:
+                if got != sub:
+                    fails.append(('plain_key', f'ent[{i}:{cls}].{key} = {got!r}, expected {sub!r}: a key no definition knows is free-form text'))
             elif kf in ('classname', 'file', 'fixup_style', 'basisv', 'uv0') or kf == 'pitch' or kf == 'yaw':
                 continue
         if 'pitch' in {k.casefold() for k in src['keys']}:
